@@ -51,6 +51,7 @@ fn main() {
         let ops = gen_history(&mut rng, &w, &h);
         let mut trk = AnyTracker::new(&cfg);
         let mut life = Life::new(cfg.max_idle);
+        let mut last_gallery: HashMap<u64, Vec<u32>> = HashMap::new();
         rep.eval();
         rep.count(&format!("histories/{:?}", kind));
         let ctx = |ci: usize, extra: Value| json!({"cfg": cfg.js(), "call": ci, "extra": extra});
@@ -66,6 +67,11 @@ fn main() {
                     let pre: HashMap<u64, LiveTrack> = trk.live().into_iter().map(|t| (t.id, t)).collect();
                     let results: Vec<(u64, Vec<Rec>)> = if kind.is_batch() { trk.predict_batch(&calls) } else { calls.iter().map(|(s, d)| (*s, trk.predict(*s, d))).collect() };
                     let post: HashMap<u64, LiveTrack> = trk.live().into_iter().map(|t| (t.id, t)).collect();
+                    for (id, t) in &post {
+                        let mut q: Vec<u32> = t.gallery.iter().filter(|g| g.feature.is_some()).map(|g| g.quality.to_bits()).collect();
+                        q.sort();
+                        last_gallery.insert(*id, q);
+                    }
                     for (scene, recs) in &results {
                         let dets = &calls.iter().find(|c| c.0 == *scene).unwrap().1;
                         let v = life.on_predict(*scene, dets, recs, false);
@@ -204,6 +210,18 @@ fn main() {
                             if !same(&wr.observed_hist, &tail(&m.dets, k)) || !same(&wr.predicted_hist, &tail(&m.preds, k)) || wr.length != m.length || !feats_ok || !wr.observed.same(m.dets.last().unwrap()) || !wr.predicted.same(m.preds.last().unwrap()) {
                                 rep.violation(&format!("C13/{:?}/wasted-conversion", kind), idx, ctx(ci, json!({"track": wr.id, "length": wr.length, "model_length": m.length, "observed_hist": wr.observed_hist.len(), "expected": k})));
                                 break 'hist;
+                            }
+                            // an expired track keeps the gallery it had while alive, and still reports its size truthfully
+                            if let Some((count, stored, quals)) = &wr.gallery {
+                                let mut q: Vec<u32> = quals.iter().map(|x| x.to_bits()).collect();
+                                q.sort();
+                                let known = last_gallery.get(&wr.id);
+                                if count != stored || known.map_or(false, |k| *k != q) {
+                                    rep.violation(&format!("C13/{:?}/wasted-track-gallery", kind), idx, ctx(ci, json!({"track": wr.id, "reported_collected_count": count, "stored_features": stored,
+                                        "stored_qualities": quals, "gallery_size_when_last_seen_alive": known.map(|k| k.len())})));
+                                    break 'hist;
+                                }
+                                rep.count("wasted_track_galleries_checked");
                             }
                             rep.count("wasted_conversions_checked");
                         }
